@@ -153,6 +153,11 @@ func c06Files() []c06File {
 			add("split-imports", strings.Replace(canon, b.imports, strings.NewReplacer("import (\n\t", "import ", "\n\t", "\nimport ", "\n)\n", "\n").Replace(b.imports), 1), false)
 		}
 	}
+	// degenerate files
+	for _, dg := range [][2]string{{"package-only", "package a\n"}, {"package-only-no-newline", "package a"}, {"imports-only", "package a\n\nimport (\n\t\"fmt\"\n\t\"strings\"\n)\n"},
+		{"comments-only", "// header\n\npackage a // trailing\n\n// floating\n"}, {"cgo-only", "package a\n\n/*\n#include <stdio.h>\n*/\nimport \"C\"\n"}} {
+		out = append(out, c06File{id: "degenerate/" + dg[0], src: dg[1], canon: false})
+	}
 	return out
 }
 
